@@ -406,7 +406,7 @@ const UNKNOWN_PROP_TOKENS: [(&str, &[&str]); 6] = [
     ("padding", &["1em", "2em"]),
 ];
 
-const UNKNOWN_PROPS: [(&str, &str); 8] = [
+const UNKNOWN_PROPS: [(&str, &str); 11] = [
     ("margin", "0 auto"),
     ("font-family", "\"Helvetica Neue\", sans-serif"),
     ("border", "1px solid #ccc"),
@@ -415,6 +415,9 @@ const UNKNOWN_PROPS: [(&str, &str); 8] = [
     ("background-image", "url(\"a;b}c.png\")"),
     ("padding", "1em"),
     ("transition", "all .2s ease-in-out"),
+    ("background-image", "url( \"photo(1).png\" )"),
+    ("mask", "url( 'a)b;c}.svg' ) no-repeat"),
+    ("cursor", "url(data:image/png;base64,iVBORw0KGgo=), auto"),
 ];
 
 pub const JUNK_RULESETS: [&str; 11] = [
@@ -431,7 +434,7 @@ pub const JUNK_RULESETS: [&str; 11] = [
     "{ color: red }",
 ];
 
-const JUNK_RULES: [&str; 11] = [
+const JUNK_RULES: [&str; 13] = [
     "@import url(data:text/css;base64,LnggeyBjb2xvcjogcmVkIH0=);",
     "@supports (display: grid;) { div { display: grid } }",
     "@foo [a;b] (c;d);",
@@ -443,6 +446,8 @@ const JUNK_RULES: [&str; 11] = [
     "@media print{*{color:#000!important}}",
     "@keyframes k { from { top: 0 } to { top: 1px } }",
     "@page :first { margin: 1in; }",
+    "@import url( \"a)b.css\" );",
+    "@font-face { src: url( 'x(1).woff' ) format(\"woff\"); }",
 ];
 
 impl Sheet {
@@ -745,7 +750,9 @@ pub fn gen_colour_sheet(rng: &mut Rng, v: &Vocab, max_rules: usize) -> Sheet {
     Sheet(rules)
 }
 
-const SOUP_TOKENS: [&str; 74] = [
+const SOUP_TOKENS: [&str; 88] = [
+    "#ab\\e9", "#abcd\\20ac 1", "\\e9", "#\\e9 b", "#ab\u{e9}", "#abcd\u{20ac}1", "\\123456789", "\\10ffff ", "#abcde\u{e9}f", "#a\u{1F600}",
+    "url( \"a(1).png\" )", "url(a b)", "url( ", "background",
     "::before", "::after", "content", "\"x\"", "white-space", "pre", "height", "max-height", "0px", "overflow",
     "overflow-y", "hidden", "::", "pre-wrap",
     "p", "div", "color", "red", "display", "none", "#", "#abc", "#12", ".", ".c1", ":", ";", "{",
